@@ -22,10 +22,16 @@ pub fn compare_runs(rs: &DefRun, ng: &DefRun) -> Option<(String, String)> {
 
 pub fn case(tape: &[u8], ctx: &Ctx) -> Outcome {
     let mut o = Outcome::new();
+    let (tape, copy) = split_copy_suffix(tape);
     let mut t = Tape::new(tape);
     let mut po = PlanOpts::standard();
     po.allow_dict = true;
     let mut plan = gen_plan(&mut t, &po);
+    if let Some(b) = copy {
+        // both libraries copy at the same points of the lock-step session
+        apply_copy(&mut plan, b);
+        o.class("session with deflateCopy-and-continue");
+    }
     plan.canonical = true;
     plan.cycles = plan.cycles.min(40);
     if std::env::var("VERIF_TRACE").is_ok() {
